@@ -704,6 +704,24 @@ class LayoutSuite(Suite):
     case_timeout = 60
     repeat = 6
     SPELL = ["abs", "rel", "dot-rel", "trailing-sep", "abs"]
+    # the styles a root may be spelled in, absolute and relative ones alternating: in a `mixed` case every root has its own style
+    STYLES = ["abs", "rel", "trailing-sep", "dot-rel", "redundant-sep", "parent-rel"]
+
+    @staticmethod
+    def spell_root(d, tmp, style):
+        """the directory `d` (absolute, below the current directory `tmp`) as a user may write it"""
+        relp = os.path.relpath(d, tmp)
+        if style == "abs":
+            return d
+        if style == "trailing-sep":
+            return d + os.sep
+        if style == "redundant-sep":          # absolute, with a `.` component and a doubled separator
+            return os.path.join(tmp, ".", "") + os.sep + relp
+        if style == "dot-rel":
+            return "." + os.sep + relp
+        if style == "parent-rel":             # relative, through the parent of the current directory
+            return os.path.join(os.pardir, os.path.basename(tmp), relp)
+        return relp
 
     def _root(self, rng, kind, where, k, shared):
         """layout of one root: path components below the temp dir, tree files (relative names), other files, empty folders"""
@@ -743,6 +761,24 @@ class LayoutSuite(Suite):
                     for k, r in enumerate(roots):
                         r["path"][-1] += f"{k}"
                 out.append({"class": f"{kind}@{where}", "kind": kind, "where": where, "roots": roots, "spell": self.SPELL[(ci + rep) % len(self.SPELL)]})
+        # several roots in ONE call, each spelled in its own style (absolute next to relative, with / without a trailing separator, through `.` or `..`):
+        # neighbouring styles of STYLES mix an absolute and a relative spelling, so every such pair occurs in the quick tier
+        ns = len(self.STYLES)
+        for i in range(3 * ns if big else ns):
+            kind, where = ("plain", "root") if i % 3 else rng.choice(combos)
+            shared = ["/".join([_word(rng) for _ in range(rng.choice([0, 0, 1, 2]))] + [_word(rng) + ".swc"]) for _ in range(rng.randint(1, 3))]
+            shared = list(dict.fromkeys(shared))
+            m = rng.choice([2, 2, 3])
+            roots = [self._root(rng, kind, where, k, shared) for k in range(m)]
+            if rng.random() < 0.2:
+                roots[rng.randrange(m)]["files"] = []          # an empty member
+            if len({tuple(r["path"]) for r in roots}) < m:
+                for k, r in enumerate(roots):
+                    r["path"][-1] += f"{k}"
+            spells = [self.STYLES[i % ns], self.STYLES[(i + 1 + i // ns) % ns]] + [rng.choice(self.STYLES) for _ in range(m - 2)]
+            if rng.random() < 0.5:
+                spells.reverse()
+            out.append({"class": f"mixed-spelling/{'+'.join(spells)}", "kind": kind, "where": where, "roots": roots, "spell": "mixed", "spells": spells})
         return out
 
     def run(self, case):
@@ -775,7 +811,7 @@ class LayoutSuite(Suite):
                     marker_of.append(mk)
                 os.chdir(tmp)
                 sp = case["spell"]
-                spelled = [d if sp == "abs" else d + os.sep if sp == "trailing-sep" else ("." + os.sep if sp == "dot-rel" else "") + os.path.relpath(d, tmp) for d in absroots]
+                spelled = [self.spell_root(d, tmp, st_) for d, st_ in zip(absroots, case.get("spells") or [sp] * len(absroots))]
                 rel = lambda f, d: os.path.relpath(os.path.abspath(str(f)), d).replace(os.sep, "/")
                 ident = lambda t: int(round(float(t.x()[0])))
                 res = {"written": [sorted(mk) for mk in marker_of], "markers": marker_of, "spelled": spelled, "pops": []}
@@ -797,9 +833,20 @@ class LayoutSuite(Suite):
                 res["rows_len"] = len(pp)
                 res["rows"] = [[rel(t.source, d) for t, d in zip(pp[i], absroots)] for i in range(len(pp))]
                 res["row_markers"] = [[ident(t) for t in pp[i]] for i in range(len(pp))]
-                ch = Populations(pops).to_population()
-                res["chain_len"] = len(ch)
-                res["chain_iter"] = [ident(t) for t in ch]
+                try:
+                    ch = Populations(pops).to_population()
+                    res["chain_len"] = len(ch)
+                    res["chain_iter"] = [ident(t) for t in ch]
+                except Exception as e:  # noqa: BLE001 - chaining populations that were built and read without error: which call raised is part of the result
+                    res["chain_raised"] = f"{type(e).__name__}: {str(e)[:200]}"
+                # … and the matched populations chained: the files of the rows, member after member (which route raised is part of the result)
+                res["pp_members"] = [[marker_of[k].get(rel(f, d)) for f in p.trees.swcs] for k, (p, d) in enumerate(zip(pp.populations, absroots))]
+                try:
+                    pc = pp.to_population()
+                    total = len(pc)
+                    res["pp_chain"] = {"len": total, "iter": [ident(t) for t in pc], "neg": [ident(pc[i - total]) for i in range(total)]}
+                except Exception as e:  # noqa: BLE001
+                    res["pp_chain"] = {"raised": f"{type(e).__name__}: {str(e)[:200]}"}
             return res
         finally:
             os.chdir(cwd)
@@ -810,7 +857,7 @@ class LayoutSuite(Suite):
             return [("malformed-output", f"run() returned {type(res).__name__}")]
         if "exc" in res:
             return [("population-raises", f"{res['exc']}: {res.get('msg')} (directory layout {case['class']}, roots {[r['path'] for r in case['roots']]}, "
-                                          f"files {[r['files'] for r in case['roots']]}, root spelled {case['spell']})")]
+                                          f"files {[r['files'] for r in case['roots']]}, root spelled {case.get('spells') or case['spell']})")]
         try:
             return self._oracle(case, res)[:3]
         except Exception as e:  # noqa: BLE001 - a malformed output is a finding, never a crash of the check
@@ -818,7 +865,7 @@ class LayoutSuite(Suite):
 
     def _oracle(self, case, res):
         out = []
-        what = f"layout {case['class']}, root spelled {case['spell']}"
+        what = f"layout {case['class']}, root spelled {case['spell']}" + (f" {case['spells']}" if case.get("spells") else "")
         orders = []
         for k, (r, pr) in enumerate(zip(case["roots"], res["pops"])):
             where = f"root {'/'.join(r['path'])!r}"
@@ -858,11 +905,28 @@ class LayoutSuite(Suite):
             out.append(("populations-rows", f"rows {rows} hold the trees of files #{res['row_markers']}, which are not those files of the roots ({what})"))
         conc = [m for o in orders for m in o]
         total = sum(len(r["files"]) for r in case["roots"])
-        if res["chain_len"] != total:
-            out.append(("chain-len/to_population", f"chained length {res['chain_len']}, the directories hold {[len(r['files']) for r in case['roots']]} tree files ({what}, "
+        if "chain_raised" in res:
+            out.append(("chain-raises", f"Populations([Population.from_swc(r) for r in {res['spelled']}]).to_population() raised {res['chain_raised']}; the members hold "
+                                        f"{[len(o) for o in orders]} trees ({what})"))
+        elif res.get("chain_len") != total:
+            out.append(("chain-len/to_population", f"chained length {res.get('chain_len')}, the directories hold {[len(r['files']) for r in case['roots']]} tree files ({what}, "
                                                    f"roots {[r['path'] for r in case['roots']]})"))
-        elif res["chain_iter"] != conc:
-            out.append(("chain-iter", f"iteration over the chained population {res['chain_iter']} ≠ concatenation {conc} ({what})"))
+        elif res.get("chain_iter") != conc:
+            out.append(("chain-iter", f"iteration over the chained population {res.get('chain_iter')} ≠ concatenation {conc} ({what})"))
+        # chaining the matched populations concatenates them in order with the right total length
+        pc = res.get("pp_chain")
+        if pc is not None:
+            mconc = [m for mem in res["pp_members"] for m in mem]
+            how = f"Populations.from_swc({res['spelled']}).to_population()"
+            if "raised" in pc:
+                out.append(("chain-raises", f"{how} raised {pc['raised']}; the members hold {[len(mem) for mem in res['pp_members']]} trees ({what})"))
+            elif pc.get("len") != len(mconc) or len(mconc) != len(case["roots"]) * len(common):
+                out.append(("chain-len/to_population", f"{how} has length {pc.get('len')}, its members hold {[len(mem) for mem in res['pp_members']]} trees; "
+                                                       f"{len(common)} files are present under each of the {len(case['roots'])} roots ({what})"))
+            elif pc.get("iter") != mconc:
+                out.append(("chain-iter", f"iteration over {how} gives the trees of files #{pc.get('iter')}, the members in order are #{mconc} ({what})"))
+            elif pc.get("neg") != mconc:
+                out.append(("chain-index/to_population", f"negative indices of {how} give the trees of files #{pc.get('neg')}, the members in order are #{mconc} ({what})"))
         return out
 
     def nontrivial(self, case, res):
@@ -1112,7 +1176,7 @@ TECHNIQUE = ("Lean 4 theorems; _get_idx, LazyLoadingTrees.load/__getitem__/__len
              "construction probe of file 0; index arithmetic incl. negative indices), the binary search of ChainTrees (invariant: returns the member and offset of "
              "the k-th element of the concatenation, empty members allowed; total length) + differential correspondence on operation scripts over real "
              "directories with reads observed (also directories of hundreds of files revisited after a full pass, several populations alive and used alternately, "
-             "chained views over large members) + Population.map under every option with jobs of unequal duration + directory layouts with unusual names (glob / regex metacharacters, dot-names, blanks and non-ASCII, extra dots; in the root, above it, in sub-folders, in file names; roots spelled absolute / relative / with a trailing separator) judged against the files written + populations built with reader options (sort_nodes, extra_cols, from_eswc, fix_roots, encoding) reached by index, slice, iteration, map and the chained population + direct oracle")
+             "chained views over large members) + Population.map under every option with jobs of unequal duration + directory layouts with unusual names (glob / regex metacharacters, dot-names, blanks and non-ASCII, extra dots; in the root, above it, in sub-folders, in file names; roots spelled absolute / relative / with a trailing separator / with redundant separators / through `..`, also each root of one call in its own style, with the matched populations chained) judged against the files written + populations built with reader options (sort_nodes, extra_cols, from_eswc, fix_roots, encoding) reached by index, slice, iteration, map and the chained population + direct oracle")
 LEVEL_TEXT = ("Kernel-checked for every history of get / load / iterate / len operations: a file is read only when its slot is empty, so at most once, and only "
               "when requested (plus slot 0 at Population construction); get(k) returns file k (k+n for negative k) and raises outside [-n, n). Kernel-checked for "
               "every list of member lengths (zeros allowed): chained length = sum, and chain[k] is element k of the concatenation.")
